@@ -6,6 +6,7 @@
 set -u
 cd /verif
 export CARGO_NET_OFFLINE=true
+export VERIF_ROOT=/verif
 target="$1"; shift
 work=/verif/work/fuzz
 mkdir -p "$work"
